@@ -17,11 +17,11 @@ still made but no longer on the path of an effect — is the business of the exp
 import re
 
 _PLUMBING = re.compile(
-    r'^(?:<[^>]*>::)?(?:Option|Result|Iter|IntoIter|Map|Filter|FilterMap|Zip|Rev|Enumerate|Skip|SkipWhile|Take|TakeWhile|Chain|Cloned|Copied|Peekable|'
+    r'^(?:<[^>]*>::)?(?:bool|Option|Result|Iter|IntoIter|Map|Filter|FilterMap|Zip|Rev|Enumerate|Skip|SkipWhile|Take|TakeWhile|Chain|Cloned|Copied|Peekable|'
     r'Windows|Chunks|ChunksExact|Flatten|FlatMap|Values|Keys|IntoValues|IntoKeys|Range|RangeInclusive|Vec|VecDeque|slice|array|T|I|F|'
     r'Iterator|IntoIterator|DoubleEndedIterator|ControlFlow|Try|FromResidual|Deref|DerefMut|AsRef|Borrow|Clone|From|Into|TryInto|TryFrom|'
     r'\w*Iterator|\w*VecReader|\w*VecReaderIterator|\w*VecIterator)::'
-    r'(?:map|map_or|map_or_else|map_err|and_then|or_else|ok_or|ok_or_else|ok|err|unwrap_or|unwrap_or_else|unwrap_or_default|unwrap|expect|'
+    r'(?:then_some|then|map|map_or|map_or_else|map_err|and_then|or_else|ok_or|ok_or_else|ok|err|unwrap_or|unwrap_or_else|unwrap_or_default|unwrap|expect|'
     r'is_some|is_none|is_ok|is_err|as_ref|as_mut|as_deref|cloned|copied|take|iter|iter_mut|into_iter|next|next_back|rev|zip|enumerate|'
     r'collect|filter|filter_map|find|find_map|for_each|all|any|position|skip|skip_while|take_while|chain|fold|count|last|first|nth|peekable|'
     r'flatten|flat_map|windows|chunks|into_values|values|keys|deref|deref_mut|borrow|clone|from|into|try_into|try_from|branch|from_residual|'
@@ -29,6 +29,7 @@ _PLUMBING = re.compile(
 _TOKEN = re.compile(r'"(?:[^"\\]|\\.)*"|\bc\d+\.arg\d+\b|<[^<>]*? as [^<>]*?>(?:::\w+)+|[A-Za-z_]\w*(?:::[A-Za-z_]\w*)+|\b-?\d+_[iu](?:\d+|size)\b|\barg\d+\b|\bc\d+\b|\.[a-z_]\w*\b|'
                     r'\b(?:Add|Sub|Mul|Div|Rem|Shl|Shr|BitAnd|BitOr|BitXor|Not|Neg)\b|\b[A-Z][A-Z0-9_]{2,}\b')
 ABBR = {}          # digest of an abbreviated description -> its leaves (filled by engine.exits and from the reviewed table)
+ABBR_TEXT = {} if __import__('os').environ.get('VERIF_ABBR_TEXT') else None   # debugging aid (tools/facts_diff.py)
 ABBR_DEC = {}      # digest -> decisions made inside the abbreviated text (current tree only; filled by engine.exits)
 _GENERIC_LABELS = {'Option::None', 'None', 'false', 'true', '()', 'Ok(())', 'const false', 'const true'}
 _REL = [(' <= ', 'le'), (' >= ', 'ge'), (' == ', 'eq'), (' != ', 'ne'), (' < ', 'lt'), (' > ', 'gt')]
@@ -57,6 +58,37 @@ def _strip_next(text):
     return ''.join(out)
 
 
+def _strip_conditions(text):
+    """`cond.then_some(v)` / `cond.then(|| v)` -> the value only; `opt.filter(|x| test)` -> the option only: the CONDITION under
+    which a value is kept is a decision (found by decisions()), not part of where the value comes from -- written as an `if`
+    it never was in the value's description."""
+    for pat, drop_first in ((r'bool::then(?:_some)?\(', True), (r'Option::filter\(', False)):
+        out, i = [], 0
+        for m in re.finditer(pat, text):
+            if m.start() < i:
+                continue
+            depth, j, start = 1, m.end(), m.end()
+            cut = None
+            while j < len(text) and depth:
+                ch = text[j]
+                if ch in _OPEN:
+                    depth += 1
+                elif ch in _CLOSE:
+                    depth -= 1
+                elif ch == ',' and depth == 1 and cut is None and text[j:j + 2] == ', ':
+                    cut = j
+                j += 1
+            if cut is None:
+                continue
+            out.append(text[i:m.end()])
+            out.append(text[cut + 2:j - 1] if drop_first else text[start:cut])
+            out.append(')')
+            i = j
+        out.append(text[i:])
+        text = ''.join(out)
+    return text
+
+
 def leaves(text):
     """Leaf tokens of a description.  Parameters carry their number of occurrences (`arg4*3`): which parameter feeds an
     expression how often is the one thing a set of names cannot tell (`length(arg4)` vs `length(arg1)` in a long formula)."""
@@ -71,11 +103,14 @@ def leaves(text):
                 out.add(t)
     # the cut-off token in front of an abbreviation mark is not a leaf (it is in the abbreviation's own leaves)
     text = re.sub(r'[\w:]*(?=…#)', '', text or '')
-    for m in _TOKEN.finditer(_strip_next(text)):
+    for m in _TOKEN.finditer(_strip_conditions(_strip_next(text))):
         t = m.group(0)
         if t.startswith('"'):
             continue                                  # message texts are not behaviour
         if re.fullmatch(r'c\d+(?:\.arg\d+)?', t):
+            # (a marker 'c?' for "provenance hidden behind the closure boundary", with a relaxed comparison for such operands, was
+            # tried and withdrawn: it let the moved check of seeded C01-6 pass as the reviewed one; the code paths for the marker
+            # below are inert)
             continue                                  # closure nesting marker / closure parameter
         if '::' in t and _PLUMBING.match(t):
             continue
@@ -182,7 +217,7 @@ def decisions(text):
                     la = frozenset({'const_'})
                 if b.strip() == '_':
                     lb = frozenset({'const_'})
-                if not la and not lb and a.strip() not in ('true', 'false') and b.strip() not in ('true', 'false'):
+                if not (la - {'c?'}) and not (lb - {'c?'}) and a.strip() not in ('true', 'false') and b.strip() not in ('true', 'false'):
                     # both operands are elements handed to an adaptor closure (`.find(|(a, b)| a != b)`): the test is made, what it
                     # is made on is in the iterator the closure is applied to
                     if op in ('eq', 'ne') and re.search(r'\bc\d+\.arg\d+', a) and re.search(r'\bc\d+\.arg\d+', b):
@@ -231,7 +266,9 @@ def decisions(text):
                 parts = _top_split(mm.group(2), [', '])
                 if len(parts) == 2:
                     la, lb, op = leaves(parts[0]), leaves(parts[1]), mm.group(1)
-                    if la or lb or all(re.search(r'\bc\d+\.arg\d+', x) for x in parts):
+                    if (la - {'c?'}) or (lb - {'c?'}) or all(re.search(r'\bc\d+\.arg\d+', x) for x in parts):
+                        if not (la - {'c?'}) and not (lb - {'c?'}):
+                            la = lb = frozenset()
                         if op in ('eq', 'ne'):
                             if sorted(lb) < sorted(la):
                                 la, lb = lb, la
@@ -295,6 +332,7 @@ _OPS = re.compile(r'^(?:const_|Add|Sub|Mul|Div|Rem|Shl|Shr|BitAnd|BitOr|BitXor|N
 
 
 def _classes(x):
+    x = set(x) - {'c?'}
     args = {t for t in x if _ARG.match(t)}
     ops = {t for t in x if _OPS.match(t)}
     return args, ops, set(x) - args - ops
@@ -306,21 +344,34 @@ def _sim(a, b):
     in a loop and hidden behind a closure parameter / helper parameter); parameters likewise."""
     aa, ao, an = _classes(a)
     ba, bo, bn = _classes(b)
-    if ao != bo:
-        return False
-    # which field of a value is compared is part of the operand, not context
-    if {x for x in an if x.startswith('.')} != {x for x in bn if x.startswith('.')}:
-        return False
+    fa_, fb_ = {x for x in an if x.startswith('.')}, {x for x in bn if x.startswith('.')}
+    if ao != bo or fa_ != fb_:
+        # identical arithmetic / constants, and: which field of a value is compared is part of the operand, not context --
+        # unless one side is computed from a closure parameter (`|n| n.checked_mul(M)`: where `n` comes from is hidden behind
+        # the closure boundary) and the other side shows it with its context (`get(..8)`, the fields it was read through)
+        # (only for an operand that is computed from closure parameters ALONE: no function parameter in it)
+        if not (('c?' in a and not aa and an <= bn and ao <= bo and fa_ <= fb_) or ('c?' in b and not ba and bn <= an and bo <= ao and fb_ <= fa_)):
+            return False
     if not (an <= bn or bn <= an) or (an and bn and not (an & bn)):
         return False
     return aa <= ba or ba <= aa
+
+
+_CONTAINERS = frozenset({'HashMap::new', 'HashSet::new', 'BTreeMap::new', 'BTreeSet::new', 'HashMap::with_capacity', 'HashSet::with_capacity',
+                         'HashMap::default', 'HashSet::default', 'LinkedHashMap::new', 'BinaryHeap::new'})
 
 
 def _subsim(core, other):
     """`core` (reviewed argument / value leaves) is still what `other` is built from."""
     ca, co, cn = _classes(core)
     oa, oo, on = _classes(other)
-    return co == oo and (cn <= on or (on <= cn and on))
+    if co != oo:
+        # a value read out of a container that the current code fills by mutation in a loop (`let mut m = HashMap::new(); for ..
+        # { *m.entry(k).or_default() += 1 }`) shows the constructor only -- what flows into it through the heap is not tracked
+        # (DESIGN 2.3 (ii)) -- where the reviewed adaptor chain (`fold(HashMap::new(), ..)`) showed its inputs
+        if not (on < cn and oo <= co and (on & _CONTAINERS)):
+            return False
+    return cn <= on or bool(on <= cn and on)
 
 
 def _covered(f, actual):
